@@ -169,7 +169,7 @@ impl Case {
 
 fn res_list(ids: &[shred::ResourceId], map: MapMode) -> String {
     if ids.is_empty() { return "-".into(); }
-    ids.iter().map(|id| (0..64u32).find(|r| rid_of(map.locate(*r)) == *id).map(|r| r.to_string()).unwrap_or("?".into())).collect::<Vec<_>>().join(",")
+    ids.iter().map(|id| (0..1024u32).find(|r| rid_of(map.locate(*r)) == *id).map(|r| r.to_string()).unwrap_or("?".into())).collect::<Vec<_>>().join(",")
 }
 
 pub fn observe(c: &Case, pools: &mut HashMap<usize, Arc<rayon::ThreadPool>>) -> String {
@@ -265,6 +265,42 @@ pub fn gen_case(rng: &mut Rng, conflicts: bool) -> Case {
     let pool = [1usize, 2, 4, 16][rng.below(4) as usize];
     let mode = match rng.below(4) { 0 => "free".to_string(), 1 | 2 => "overlap".to_string(), _ => format!("jitter:{}", rng.next()) };
     Case { pool, mode, inside: rng.chance(1, 3), tree }
+}
+
+/// wide pars: many conflict-free padding children (the accumulated access lists get long), one child that both
+/// reads and writes a resource X (a seq of readers and writers), and a last child that does or
+/// does not conflict with what was accumulated; `k` indexes the family
+pub fn wide_count() -> u64 { 9 * 4 * 3 * 7 }
+pub fn wide_nth(k: u64) -> Case {
+    let pads = [0u64, 3, 14, 15, 16, 17, 20, 33, 70][(k % 9) as usize];
+    let mixed_kind = (k / 9) % 4;
+    let pos = (k / 36) % 3;
+    let last = (k / 108) % 7;
+    const X: u32 = 7;
+    let mut next = 0u32;
+    let mut leaf = |r: Vec<u32>, w: Vec<u32>| { next += 1; Tree::Leaf(next, r, w) };
+    let mixed = match mixed_kind {
+        0 => Tree::Seq(vec![leaf(vec![X], vec![]), leaf(vec![], vec![X])]),
+        1 => Tree::Seq(vec![leaf(vec![], vec![X]), leaf(vec![X], vec![])]),
+        2 => Tree::Seq(vec![leaf(vec![], vec![X]), leaf(vec![X], vec![]), leaf(vec![], vec![X])]),
+        _ => Tree::Seq(vec![leaf(vec![X, 100], vec![]), leaf(vec![101], vec![X]), leaf(vec![X], vec![])]),
+    };
+    let mut kids: Vec<Tree> = (0..pads).map(|i| {
+        let r = match i % 3 { 0 => vec![], 1 => vec![100], _ => vec![100, 101] };
+        leaf(r, vec![200 + i as u32])
+    }).collect();
+    let at = match pos { 0 => 0, 1 => kids.len() / 2, _ => kids.len() };
+    kids.insert(at, mixed);
+    kids.push(match last {
+        0 => leaf(vec![X], vec![]),                 // reads what a child writes
+        1 => leaf(vec![], vec![X]),                 // writes what a child reads and writes
+        2 => leaf(vec![100], vec![]),               // reads a read-only resource: fine
+        3 => leaf(vec![], vec![999]),               // writes a new resource: fine
+        4 => leaf(vec![200], vec![]),               // reads what the first padding child writes (if there is one)
+        5 => leaf(vec![], vec![100]),               // writes what padding children read
+        _ => leaf(vec![102], vec![998]),            // fine
+    });
+    Case { pool: [2usize, 4][(k % 2) as usize], mode: "free".into(), inside: k % 5 == 0, tree: Tree::Par(kids) }
 }
 
 /// all tree shapes with <= 4 leaves (par/seq at every inner node, fan-out >= 1), leaves get fixed
